@@ -282,28 +282,33 @@ func isFollowedByLink(cursor *commonmark.Cursor) bool {
 
 // followsLineOfDigits reports whether the text of the cursor's line
 // up to and including prefix (the start of the cursor's own text)
-// consists of one or more ASCII digits and nothing else.
+// consists of one or more ASCII digits, possibly indented, and nothing else.
 func followsLineOfDigits(source []byte, cursor *commonmark.Cursor, prefix []byte) bool {
+	// Walk back to the start of the line.
+	// Only the leftmost piece of text may begin with blanks.
+	first := prefix
 	n := len(prefix)
-	if !isASCIIDigits(prefix) {
-		return false
-	}
+lineStart:
 	for i := cursor.Index() - 1; i >= 0; i-- {
 		sibling := cursor.Parent().Child(i).Inline()
 		switch sibling.Kind() {
 		case commonmark.TextKind:
-			text := spanSlice(source, sibling.Span())
-			if !isASCIIDigits(text) {
+			if !isASCIIDigits(first) {
 				return false
 			}
-			n += len(text)
+			first = spanSlice(source, sibling.Span())
+			n += len(first)
 		case commonmark.SoftLineBreakKind, commonmark.HardLineBreakKind, commonmark.IndentKind:
-			return n > 0
+			break lineStart
 		default:
 			return false
 		}
 	}
-	return n > 0
+	blanks := 0
+	for blanks < len(first) && (first[blanks] == ' ' || first[blanks] == '\t') {
+		blanks++
+	}
+	return n > blanks && isASCIIDigits(first[blanks:])
 }
 
 func isASCIIDigits(b []byte) bool {
